@@ -94,7 +94,7 @@ CLAIMED = {
             "mode grids are concrete (trigonometric values evaluated in floating point as the code does); gamma entries are exact algebraic numbers (float32 storage outside)."),
     "C13": ("4 C13", "the part of the Karhunen-Loeve construction that is decidable once numpy.linalg.eigh is replaced by its CONTRACT (ascending "
             "eigenvalues, V^T V = I, M V = V diag(w); fresh symbols - not by the property): gkl_fcom on a SYMBOLIC kernel array (symmetric, every "
-            "entry a free real; nr = 2 with 3 azimuthal orders quick, up to nr = 3 / 4 orders thorough) and symbolic obscuration, on every path of "
+            "entry a free real; nr = 2 radial points with 3 azimuthal orders quick, 4 orders thorough; nr = 3 does not finish within the hour) and symbolic obscuration, on every path of "
             "the eigenvalue-order decisions: returned variances non-increasing; orders >= 1 come as consecutive cos/sin pairs (azimuthal indices "
             "2m-1, 2m) with one variance and one radial function; no larger eigenvalue of the orders used is left out; radial functions "
             "orthonormal with the normalisation that makes the polar functions orthonormal over the pupil; every returned (variance, function) is "
